@@ -62,8 +62,10 @@ def build(spec):
             strats, sp = [], []
             for (rt, dem) in tp["strategies"]:
                 res = {"CPU": dem} if isinstance(dem, int) else dict(dem)
+                # runtime_in_ms: the same runtime written in milliseconds (rt is a multiple of 1000 us)
+                rtime = EventTime(rt // 1000, EventTime.Unit.MS) if tp.get("runtime_in_ms") and rt % 1000 == 0 else ET(rt)
                 strats.append(ExecutionStrategy(resources=Resources({Resource(name=rn, _id="any"): q for rn, q in res.items()}, _logger=NULL),
-                                                batch_size=1, runtime=ET(rt)))
+                                                batch_size=1, runtime=rtime))
                 sp.append((rt, res))
             prof = WorkProfile(name=tn + "_p", execution_strategies=ExecutionStrategies(strats))
             is_src = not parents[tn]
